@@ -96,6 +96,8 @@ class Tokens:
 
 KEY_POOL = [
     "a", "b", "c", "~", "!x", "a.b", "x=y", "%20", "A", "ab", "a_", "0", "-", "(k)", "[0]",
+    # legal user names that merely contain reserved-looking text (reserved: segments *starting* with metador_)
+    "x_metador_y", "raw_metador_meta_", "_metador_container", "ametador_", "Metador_x", "metador",
     "q" * 63, "metadata", "dot.", "#", "$v", "a+b", "a,b", "k'", '"', "\\", "|", "^", "`", "{}", ";",
 ]
 ABSTRACT_KEYS = ["a", "b", "c"]
@@ -107,6 +109,13 @@ class KeyMap:
         if concrete:
             ks = rng.sample(KEY_POOL, len(ABSTRACT_KEYS))
             aks = rng.sample(KEY_POOL, len(ABSTRACT_ATTRS))
+            if rng.random() < 0.4:
+                # sibling names one of which is a proper prefix of the other (run1 / run10)
+                base = rng.choice(["run1", "a", "x-", "d.0", KEY_POOL[rng.randrange(len(KEY_POOL))][:20]])
+                fam = [base, base + rng.choice(["0", "b", "_x", ".", "1"]), base + rng.choice(["00", "bb", "-y"])]
+                rng.shuffle(fam)
+                ks = fam[: len(ABSTRACT_KEYS)] if rng.random() < 0.5 else [fam[0], fam[1], ks[2] if ks[2] not in fam else fam[2]]
+                rng.shuffle(ks)
         else:
             ks, aks = list(ABSTRACT_KEYS), list(ABSTRACT_ATTRS)
         self.k = dict(zip(ABSTRACT_KEYS, ks))
@@ -332,6 +341,8 @@ def gen_op(rng: random.Random, view: List[Dict[str, Any]], *, depth: int = 3,
         ints = [p for p in datasets if nodes[p]["v"] == "v1"]
         if r2 < 0.4 and ints:
             e["p"] = list(rng.choice(ints))       # exists with matching shape/type: returned as is
+        elif r2 < 0.55 and datasets:
+            e["p"] = list(rng.choice(datasets))   # exists with whatever shape/type: returned or refused
         elif r2 < 0.8:
             e["p"] = fresh()
         else:
